@@ -25,10 +25,15 @@ from pymablock.series import BlockSeries, zero, one
 class UserError(Exception): pass
 class UserRuntime(RuntimeError): pass
 KINDS = {"Exception": UserError, "OSError": OSError, "FloatingPointError": FloatingPointError, "RuntimeError": UserRuntime,
-         "RecursionError": RecursionError, "KeyboardInterrupt": KeyboardInterrupt}
+         "RecursionError": RecursionError, "KeyboardInterrupt": KeyboardInterrupt,
+         # the types the library's own code catches somewhere (look-ups, conversions, validation): a caller's exception of such a type is still the caller's
+         "KeyError": KeyError, "IndexError": IndexError, "TypeError": TypeError, "ValueError": ValueError, "AttributeError": AttributeError}
 
 def gen(rnd):
-    N = rnd.choice([2, 2, 3]); sizes = [rnd.randint(1, 2) for _ in range(N)]; k = rnd.choice([1, 1, 2]); d = sum(sizes)
+    fmt = rnd.choice(["series-full", "series-blocks", "series-nested", "dict", "series-implicit"])
+    N = rnd.choice([2, 2, 3]); sizes = [rnd.randint(1, 2) for _ in range(N)]; k = rnd.choice([1, 1, 2])
+    if fmt == "series-implicit": sizes[-1] = rnd.randint(2, 3)      # (the last block is the implicit one: the rest of the space)
+    d = sum(sizes)
     rng = np.random.default_rng(rnd.randrange(2**31)); cplx = rnd.random() < 0.4
     off = [0]
     for s in sizes: off.append(off[-1] + s)
@@ -38,9 +43,9 @@ def gen(rnd):
     terms = {(0,) * k: np.diag(E).astype(complex if cplx else float)}
     for n in itertools.product(range(3), repeat=k):
         if 1 <= sum(n) <= 2 and (sum(n) == 1 or rnd.random() < 0.4): terms[n] = herm()
-    fmt = rnd.choice(["series-full", "series-blocks", "series-nested", "dict"])
-    solver = rnd.random() < 0.6 or fmt == "dict"
+    solver = (rnd.random() < 0.6 or fmt == "dict") and fmt != "series-implicit"
     fd = tuple(b for b in range(N) if rnd.random() < 0.3) if not solver else ()      # (full diagonalisation is not offered with a solver of the caller's)
+    if fmt == "series-implicit": fd = tuple(b for b in fd if b != N - 1)
     # the schedule
     maxo = 3 if k == 1 else 2; reqs = []
     for _ in range(rnd.randint(4, 7)):
@@ -66,6 +71,11 @@ def run(P, fault):
     if P["fmt"] == "series-full":
         def ev(*n): tick("term"); return terms[n].copy() if n in terms else zero
         H = BlockSeries(eval=ev, shape=(), n_infinite=k); kw["subspace_indices"] = sum([[b] * s for b, s in enumerate(P["sizes"])], [])
+    elif P["fmt"] == "series-implicit":
+        # implicit mode: eigenvectors of the first blocks only (H_0 is diagonal: unit vectors), the last block is a linear operator on the whole space
+        def ev(*n): tick("term"); return terms[n].copy() if n in terms else zero
+        H = BlockSeries(eval=ev, shape=(), n_infinite=k); dd = sum(P["sizes"])
+        kw["subspace_eigenvectors"] = [np.eye(dd)[:, off[b]:off[b + 1]] for b in range(N - 1)]
     elif P["fmt"] == "series-nested":
         def ev(*n): tick("term"); return cut(terms[n]) if n in terms else zero
         H = BlockSeries(eval=ev, shape=(), n_infinite=k)
@@ -105,6 +115,8 @@ def same(a, b):
     if a is zero or b is zero or a is one or b is one: return a is b
     if hasattr(a, "toarray"): a = a.toarray()
     if hasattr(b, "toarray"): b = b.toarray()
+    if hasattr(a, "matmat") and not isinstance(a, np.ndarray): a = a @ np.eye(a.shape[1])      # (blocks of the implicit part are linear operators)
+    if hasattr(b, "matmat") and not isinstance(b, np.ndarray): b = b @ np.eye(b.shape[1])
     if not (isinstance(a, np.ndarray) and isinstance(b, np.ndarray)) or a.shape != b.shape: return False
     return bool(np.all(np.abs(a - b) <= 1e-12 * (1 + np.abs(b).max(initial=0))))
 
